@@ -11,9 +11,11 @@ import VotelibProofs.Lemmas.C12Approval
 import VotelibProofs.Lemmas.C12Spav
 import VotelibProofs.Lemmas.C12JR
 import VotelibProofs.Lemmas.C12Score
+import VotelibProofs.Lemmas.C12Star
+import VotelibProofs.Lemmas.C12MJ
 import VotelibModel.Gen.Quota
 namespace VL.C12
-open VL VL.Appr VL.Score
+open VL VL.Appr VL.Score VL.C09
 
 /-- **PAV equals its definition.**  With a valid cache (any history of calls), `evaluate` returns the unique `n`-subset
     of the candidates that maximises the harmonic satisfaction, in the documented order, and refuses
@@ -345,13 +347,174 @@ example : aggregateOne .medianLow [(5, 3), (2, 2), (3, 1)] = .ok 3 := by decide 
 example : aggregateOne .mean [(5, 1), (2, 2)] = .ok 3 := by decide +kernel
 example : aggregateOne .medianLow [] = .error (.other "StatisticsError") := by decide +kernel
 
+/-! ### Majority judgment -/
+
+/-- **Majority judgment elects the candidates with the highest median grade.**  Whatever `evaluate` returns (either
+    tie-breaking rule, any settings): with `τ` the `n`-th highest lower median, every candidate whose median is strictly
+    above `τ` is elected, and no candidate whose median is strictly below `τ` is — the tie-breakers only ever choose
+    among the candidates whose median equals `τ`.  (Each entry of `agg` is the lower median of the candidate's corrected
+    grades by `mj_median_is_lower_median` / `score_aggregate_eq_spec`.) -/
+theorem mj_elects_highest_medians (tb : TieBreaking) (cfg : Cfg) (votes : SProfile) (n : Nat) (h1 : 1 ≤ n)
+    (r : List Slot) (hok : majorityJudgment tb cfg votes n = .ok r) :
+    ∃ t agg, correctedScores { cfg with fn := .medianLow } votes = .ok t ∧ aggregate .medianLow t = .ok agg ∧
+      ∀ τ, IsNth agg n τ → n ≤ agg.length →
+        (∀ p ∈ agg, τ < p.2 → Slot.cand p.1 ∈ r) ∧
+        ((keys agg).Nodup → ∀ p ∈ agg, p.2 < τ → Slot.cand p.1 ∉ r) := by
+  unfold majorityJudgment at hok
+  cases ht : correctedScores { cfg with fn := .medianLow } votes with
+  | error e => rw [ht] at hok; cases hok
+  | ok t =>
+    rw [ht] at hok
+    simp only [bind, Except.bind] at hok
+    cases ha : aggregate .medianLow t with
+    | error e => rw [ha] at hok; cases hok
+    | ok agg =>
+      rw [ha] at hok
+      simp only at hok
+      refine ⟨t, agg, rfl, ha, ?_⟩
+      intro τ hτ hlen
+      have hbelow_len : ∀ p ∈ agg, p.2 < τ → n < agg.length := by
+        intro p hp hlt
+        by_contra hge
+        have hall : cntGe agg τ < agg.length := by
+          unfold cntGe
+          apply List.length_filter_lt_length_iff_exists.mpr
+          exact ⟨p, hp, by simpa using hlt⟩
+        have := hτ.2.2
+        omega
+      split at hok
+      · cases hok
+      · -- no tie at the boundary: the result is get_n_best
+        injection hok with hok; subst hok
+        refine ⟨fun p hp hgt => strictly_above_elected agg n h1 hlen τ hτ p hp hgt, ?_⟩
+        intro hnd p hp hlt
+        exact (below_never_elected agg hnd n h1 (hbelow_len p hp hlt) τ hτ p hp hlt).1
+      · rename_i T hlast
+        obtain ⟨τ', hτ', hlen', hT, htake⟩ := mj_tie_structure agg n h1 T hlast
+        have : τ' = τ := nth_unique hτ' hτ
+        subst this
+        rw [htake] at hok
+        -- the tie-break result
+        set tied : ScoreTable := (sortDedup T).filterMap (fun c => (tableGet t c).map (fun cs => (c, cs))) with htied
+        have htiedkeys : ∀ c ∈ tied.map (·.1), c ∈ T := by
+          intro c hc
+          obtain ⟨q, hq, rfl⟩ := List.mem_map.mp hc
+          obtain ⟨c', hc', hq'⟩ := List.mem_filterMap.mp hq
+          have : q.1 = c' := by
+            cases hg : tableGet t c' with
+            | none => rw [hg] at hq'; cases hq'
+            | some cs => rw [hg] at hq'; simp at hq'; rw [← hq']
+          rw [this]; exact mem_sortDedup.mp hc'
+        have final : ∀ broken : List Slot, (∀ s ∈ broken, SlotIn T s) →
+            (∀ p ∈ agg, τ' < p.2 → Slot.cand p.1 ∈ (aboveSorted agg τ').map (fun p => Slot.cand p.1) ++ broken) ∧
+            ((keys agg).Nodup → ∀ p ∈ agg, p.2 < τ' →
+              Slot.cand p.1 ∉ (aboveSorted agg τ').map (fun p => Slot.cand p.1) ++ broken) := by
+          intro broken hbroken
+          refine ⟨?_, ?_⟩
+          · intro p hp hgt
+            apply List.mem_append_left
+            exact List.mem_map.mpr ⟨p, mem_aboveSorted.mpr ⟨hp, hgt⟩, rfl⟩
+          · intro hnd p hp hlt hmem
+            have hkeyinj : ∀ q ∈ agg, q.1 = p.1 → q = p := fun q hq hk => List.inj_on_of_nodup_map hnd hq hp hk
+            rcases List.mem_append.mp hmem with h | h
+            · obtain ⟨q, hq, hqe⟩ := List.mem_map.mp h
+              have hq' := mem_aboveSorted.mp hq
+              have hk : q.1 = p.1 := by injection hqe
+              have := hkeyinj q hq'.1 hk
+              rw [this] at hq'
+              exact absurd (lt_trans hlt hq'.2) (lt_irrefl _)
+            · have hin : p.1 ∈ T := hbroken _ h
+              rw [hT] at hin
+              simp only [level, List.mem_map, List.mem_filter, decide_eq_true_eq] at hin
+              obtain ⟨q, ⟨hq, hqt⟩, hqk⟩ := hin
+              have := hkeyinj q hq hqk
+              rw [this] at hqt
+              exact absurd hqt (ne_of_lt hlt)
+        cases tb with
+        | default =>
+          simp only at hok
+          cases hb : tiebreakDefault (tableFuel tied) tied ((getNBest agg n).count (Slot.tie T)) with
+          | error e => rw [hb] at hok; cases hok
+          | ok broken =>
+            rw [hb] at hok
+            injection hok with hok; subst hok
+            exact final broken (fun s hs => SlotIn.mono htiedkeys (tiebreakDefault_slotIn _ _ _ _ hb s hs))
+        | plus =>
+          simp only at hok
+          cases hb : tiebreakPlus tied ((getNBest agg n).count (Slot.tie T)) with
+          | error e => rw [hb] at hok; cases hok
+          | ok broken =>
+            rw [hb] at hok
+            injection hok with hok; subst hok
+            exact final broken (fun s hs => SlotIn.mono htiedkeys (tiebreakPlus_slotIn _ _ _ hb s hs))
+
+/-! ### STAR -/
+
+/-- plain settings: no unscored value, no minimum count, no truncation -/
+def plainCfg (fn : Agg) : Cfg := { fn := fn, unscored := .none, minCount := 0, trunc := .off, bottom := 0 }
+
+
+/-- **The STAR run-off between two finalists is the pairwise comparison.**  Let the run-off table `pw` (what
+    `STAR.evaluate` hands to the Schulze evaluator) mention exactly the two finalists `a ≠ b`, with `x` voters
+    preferring `a` to `b` and `y` preferring `b` to `a`.  Then one seat goes to `a` if `x > y`, to `b` if `y > x`, and a
+    tie of the two is reported if `x = y`. -/
+theorem star_runoff_pairwise (pw : PairCounts) (a b : Cand) (hab : a ≠ b) (hne : pw ≠ [])
+    (hnd : (pw.map (·.1)).Nodup) (hk : ∀ p ∈ pw, p.1 = (a, b) ∨ p.1 = (b, a)) (hpos : ∀ p ∈ pw, 0 ≤ p.2) :
+    (getPair pw b a < getPair pw a b → schulze pw 1 = [Slot.cand a]) ∧
+    (getPair pw a b < getPair pw b a → schulze pw 1 = [Slot.cand b]) ∧
+    (getPair pw a b = getPair pw b a → ∃ T, schulze pw 1 = [Slot.tie T] ∧ ∀ c, c ∈ T ↔ c = a ∨ c = b) := by
+  have hba : b ≠ a := fun h => hab h.symm
+  have hp1 : ¬ ((a, b) = (b, a)) := by intro h; injection h with h1 _; exact hab h1
+  have hp2 : ¬ ((b, a) = (a, b)) := by intro h; injection h with h1 _; exact hba h1
+  rcases pair_shapes hab hne hnd hk with ⟨x, rfl⟩ | ⟨y, rfl⟩ | ⟨x, y, rfl⟩ | ⟨x, y, rfl⟩
+  · have hx : 0 ≤ x := hpos ((a, b), x) (by simp)
+    have e1 : getPair [((a, b), x)] a b = x := by simp [getPair]
+    have e2 : getPair [((a, b), x)] b a = 0 := by simp [getPair, hp1]
+    rw [e1, e2, schulze_two_single a b hab x hx]
+    refine ⟨fun h => by rw [if_pos h], fun h => by omega, fun h => ?_⟩
+    subst h
+    exact ⟨[a, b], by simp, by simp⟩
+  · have hy : 0 ≤ y := hpos ((b, a), y) (by simp)
+    have e1 : getPair [((b, a), y)] a b = 0 := by simp [getPair, hp2]
+    have e2 : getPair [((b, a), y)] b a = y := by simp [getPair]
+    rw [e1, e2, schulze_two_single b a hba y hy]
+    refine ⟨fun h => by omega, fun h => by rw [if_pos h], fun h => ?_⟩
+    subst h
+    exact ⟨[b, a], by simp, by intro c; simp; tauto⟩
+  · have hx : 0 ≤ x := hpos ((a, b), x) (by simp)
+    have hy : 0 ≤ y := hpos ((b, a), y) (by simp)
+    have e1 : getPair [((a, b), x), ((b, a), y)] a b = x := by simp [getPair]
+    have e2 : getPair [((a, b), x), ((b, a), y)] b a = y := by simp [getPair, hp1]
+    rw [e1, e2, schulze_two_both a b hab x y hx hy]
+    refine ⟨fun h => by rw [if_pos h], fun h => ?_, fun h => ?_⟩
+    · rw [if_neg (by omega), if_pos h]
+    · subst h
+      exact ⟨[a, b], by simp, by simp⟩
+  · have hx : 0 ≤ x := hpos ((a, b), x) (by simp)
+    have hy : 0 ≤ y := hpos ((b, a), y) (by simp)
+    have e1 : getPair [((b, a), y), ((a, b), x)] a b = x := by simp [getPair, hp2]
+    have e2 : getPair [((b, a), y), ((a, b), x)] b a = y := by simp [getPair]
+    rw [e1, e2, schulze_two_both b a hba y x hy hx]
+    refine ⟨fun h => ?_, fun h => by rw [if_pos h], fun h => ?_⟩
+    · rw [if_neg (by omega), if_pos h]
+    · subst h
+      exact ⟨[b, a], by simp, by intro c; simp; tauto⟩
+
+/-- `STAR.evaluate` is the Schulze evaluation of its run-off table (so `star_runoff_pairwise` speaks about the
+    evaluator's result whenever the run-off has two finalists) -/
+theorem star_eq_schulze_of_runoff (ac : Nat) (af : Rat) (cfg : Cfg) (votes : SProfile) (n : Nat) :
+    Score.star ac af cfg votes n = (starRunoff ac af cfg votes n).map (fun pw => schulze pw n) := by
+  unfold Score.star
+  cases starRunoff ac af cfg votes n <;> rfl
+
+/-- the ordinary single-winner case on a concrete profile: the score leader 0 loses the run-off to 1 -/
+example : Score.star 1 0 (plainCfg .sum) [([(0, 5), (1, 4), (2, 0)], 2), ([(0, 0), (1, 1), (2, 0)], 3)] 1
+    = .ok [Slot.cand 1] := by decide +kernel
+
 /-! ### Witnesses of the open findings (the model reproduces the defects of the current code)
 
   The property text is FALSE of the current code on these inputs; the general statements for these evaluators are
   therefore listed as unproved in the harness module (`UNPROVED`), and what is proved instead are the parts that hold. -/
-
-/-- plain settings: no unscored value, no minimum count, no truncation -/
-def plainCfg (fn : Agg) : Cfg := { fn := fn, unscored := .none, minCount := 0, trunc := .off, bottom := 0 }
 
 /-- MajorityJudgment, default tie-break: candidates 1 and 3 tie on median 1 for the second seat; 3 holds three grades,
     1 holds two; after two removals candidate 1 has no grade left and `median_low` raises (not a declared error). -/
@@ -366,15 +529,15 @@ theorem mj_default_tiebreak_scale_witness :
 
 /-- STAR with a run-off of one candidate elects nobody -/
 theorem star_single_runoff_witness :
-    star 0 0 (plainCfg .sum) [([(0, 5), (1, 2)], 2), ([(0, 1), (1, 3)], 1)] 1 = .ok [] := by decide +kernel
+    Score.star 0 0 (plainCfg .sum) [([(0, 5), (1, 2)], 2), ([(0, 1), (1, 3)], 1)] 1 = .ok [] := by decide +kernel
 
 /-- STAR drops the candidates tied at the run-off boundary, here leaving the score leader without an opponent -/
 theorem star_boundary_tie_witness :
-    star 1 0 (plainCfg .sum) [([(0, 5), (1, 1), (2, 1)], 2)] 1 = .ok [] := by decide +kernel
+    Score.star 1 0 (plainCfg .sum) [([(0, 5), (1, 1), (2, 1)], 2)] 1 = .ok [] := by decide +kernel
 
 /-- STAR loses finalists that nobody ranks strictly apart -/
 theorem star_member_dropped_witness :
-    star 1 0 (plainCfg .sum) [([(0, 5), (1, 5), (2, 0)], 2), ([(0, 4), (1, 4), (2, 1)], 1)] 1 = .ok [] := by
+    Score.star 1 0 (plainCfg .sum) [([(0, 5), (1, 5), (2, 0)], 2), ([(0, 4), (1, 4), (2, 1)], 1)] 1 = .ok [] := by
   decide +kernel
 
 /-- Allocated score: a ballot that grades only the elected candidate makes the next round raise `ValueError` -/
